@@ -15,6 +15,7 @@ import UnytModel.DriverBase
 import UnytModel.Ufunc
 import UnytModel.ArrayChecks
 import UnytModel.Ref.C01
+import UnytModel.Generated.C01Writes
 
 namespace Unyt
 open Unyt.Ufunc Unyt.ArrayChecks
@@ -241,10 +242,15 @@ def stepC01 (st : DriverState) (fields : List String) : Option String :=
     | none => some "none"
   | ["c01.dump.checks", fn] =>
     match Generated.handlerChecks.find? (·.1 == fn) with
-    | some (_, cs) => some ("ok\t" ++ ";".intercalate (cs.map fun c => c.1 ++ ":" ++ ",".intercalate c.2))
+    | some (_, cs) => some ("ok\t" ++ ";".intercalate (cs.map fun c =>
+        c.1 ++ ":" ++ ",".intercalate c.2.1 ++ ":" ++ (if c.2.2.1 then "1" else "0") ++ (if c.2.2.2 then "1" else "0")))
     | none => some "none"
   | "c01.covered" :: fn :: ops =>
-    some (if covered Generated.handlerChecks fn ops then "ok\t1" else "ok\t0")
+    some (if covered Generated.handlerChecks (Ref.C01.kindsFor (fn, ops)) fn ops then "ok\t1" else "ok\t0")
+  | ["c01.dump.writes"] =>
+    some ("ok\t" ++ ";".intercalate (Generated.dispatcherWriteSites.map fun w => w.1 ++ ":" ++ w.2.1) ++ "\t" ++
+      ",".intercalate Generated.dispatcherInputAliases ++ "\t" ++ ",".intercalate Generated.dispatcherRescaleTuple ++ "\t" ++
+      ";".intercalate (Generated.dispatcherMismatchFallback.map fun p => p.1 ++ ">" ++ p.2))
   | ["c01.ref.ufuncs"] => some ("ok\t" ++ ",".intercalate Ref.C01.commensurabilityRequiring)
   | ["c01.ref.merging"] =>
     some ("ok\t" ++ ";".intercalate (Ref.C01.mergingFunctions.map fun p => p.1 ++ ":" ++ ",".intercalate p.2))
